@@ -8,6 +8,7 @@
 -/
 import PonyVerif.Lemmas.RelStep
 import PonyVerif.Lemmas.RelLiveStep
+import PonyVerif.Lemmas.RelTyped
 namespace PonyVerif.Props.C12
 open PonyVerif.Model.Rel
 
@@ -127,6 +128,29 @@ theorem C12_no_dangling_reachable (sch : Schema) (ops : List Op) (h : AllOK sch 
       intro s hI hC hok
       exact ih (step sch s op) (C12_step sch s op hI) (C12_clean_step sch s op hI hC hok.1) hok.2
   exact g ops _ (C12_init sch) (fun o ho => absurd ho (Nat.not_lt_zero _)) h
+
+/-! ### typing of links (removes the side condition of `Live`) -/
+
+/-- EVERY user call, successful or failing, on any schema keeps "every link of an existing object is held under an attribute
+    declared on the object's entity" -/
+theorem C12_typed_step (sch : Schema) (s : Store) (op : Op) (hI : Inv sch s) (hT : Typed sch s) : Typed sch (step sch s op) :=
+  typed_step sch s op hI hT
+
+/-- every reachable state is well typed -/
+theorem C12_typed_reachable (sch : Schema) (ops : List Op) : Typed sch (run sch Store.empty ops) := by
+  have g : ∀ (ops : List Op) (s : Store), Inv sch s → Typed sch s → Typed sch (run sch s ops) := by
+    intro ops
+    induction ops with
+    | nil => intro s _ hT; exact hT
+    | cons op ops ih => intro s hI hT; exact ih _ (C12_step sch s op hI) (C12_typed_step sch s op hI hT)
+  exact g ops _ (C12_init sch) (fun p _ _ hp => absurd hp (Nat.not_lt_zero _))
+
+/-- the no-dangling clause WITHOUT side condition: in every state reached by a history whose calls satisfy the guard, whatever a
+    live object holds under any attribute is alive -/
+theorem C12_no_dangling_reachable_all (sch : Schema) (ops : List Op) (h : AllOK sch Store.empty ops) :
+    LiveAll sch (run sch Store.empty ops) :=
+  liveAll_of_live (C12_reachable sch ops).agree (C12_reachable sch ops).range (C12_typed_reachable sch ops)
+    (C12_no_dangling_reachable sch ops h)
 
 /-- the UNGUARDED statement is false of the mirrored code even when every object passed is alive: a collection assignment
     whose cascade deletes the OWNER of the collection goes on and links the new items to the deleted owner
